@@ -591,8 +591,8 @@ PROPS = {
         suites=['wire-in'], rule=WIREIN_RULE, trusted=COMMON_TRUSTED + READER_TRUST + [FLATE_ASSUME],
         assumptions=[FLATE_ASSUME, 'panics inside the Go standard library on hostile input are covered by the correspondence run only (any panic is an observation no model run produces)'],
         level_text='Theorems (every state / input): each header-level violation of the property\'s list is rejected by readLoop before any data is handed out; top-bit lengths '
-                   'and malformed Close payloads fail; header decode∘encode = id. Whole-stream equality with the reference decoder is carried by the correspondence '
-                   '(model = library on every generated stream) — the stream-level refinement theorem is stated in DESIGN.md and not yet proved (partial).',
+                   'and malformed Close payloads fail; header decode∘encode = id. C03_valid: for every VALID uncompressed frame stream (any fragmentation, control frames anywhere, both roles) and any read-buffer sizes the Reader model '
+                   'delivers exactly the messages the specification decoder assigns to the stream and answers its pings. Streams with violations and compressed content: model = library on every generated stream (correspondence).',
         level_note='C03_valid is the stream-level theorem for valid uncompressed streams (both roles, all fragmentations, control frames anywhere, any buffer sizes); violations are covered by step-level theorems; compressed content via the inflate oracle (correspondence).',
         technique='Coq proof (case analysis over the header / control-frame paths) + differential run of the extracted Reader model vs the library over scripted raw peers',
     ),
